@@ -30,8 +30,29 @@ def fixSplit (x : Float) : Int × Float :=
   let t := if x ≥ 0.0 then Float.floor x else Float.ceil x
   (t.toInt64.toInt, x - t)
 
-/-- a chain of Pupil/Plane and Tilt elements on a fresh wavefront (optionally `Wavefront(tilt=…)`), tilt lists carried per
-field; then `propagate_dft` (builderB's `propagateDft`: per-field shifts from the tilt lists, generated window block) -/
+/-- materialise a lazily defined array (so that later stages do not recompute the transform for every access) -/
+def freezeF (f : Fld CF) : Fld CF :=
+  let d : Array CF := ((idxList f.arr.s0 f.arr.s1).map fun (i, k) => f.arr.get i k).toArray
+  { f with arr := { f.arr with get := mkGet f.arr.s1 d } }
+
+/-- `mask` of `propagate_dft` as the box `lentil.boundary(mask)` = [rmin, rmax, cmin, cmax], or null -/
+def maskBox (j : Json) : R (Option Extent) :=
+  match optVal j "mask" with
+  | none => pure none
+  | some v => if v.isNull then pure none else do pure (some (← extOfJson j "mask"))
+
+def viewsJ (N : Ops.C07.Num CF Float) (shape : Option (Int × Int)) (data : List (Fld CF)) : Json :=
+  match shape with
+  | none => Json.mkObj [("shape", Json.null), ("nfields", intJ data.length)]
+  | some (S0, S1) =>
+    Json.mkObj [("shape", ints #[S0, S1]), ("nfields", intJ data.length),
+      ("field", Ops.C07.arrJ N (wfField N.one S0 S1 data)),
+      ("intensity", match wfIntensity N.one N.nsq S0 S1 data with | some a => Ops.C07.arrJ N a | none => Json.str "ValueError")]
+
+/-- a chain of Pupil/Plane/Image, Tilt and `propagate_dft` elements on a fresh wavefront (optionally `Wavefront(tilt=…)`), tilt
+lists carried per field; `propagate_dft` is builderB's `propagateDft` (per-field shifts from the tilt lists, generated window
+block, optional output mask). Reports the views after every element (`steps`), the final per-field list, and — for the older
+request form with a trailing `prop` — the propagated views. -/
 def runTiltChain (j : Json) : R Json := do
   let N := Ops.C07.numCF
   let wl ← getFloat j "wavelength"
@@ -40,11 +61,26 @@ def runTiltChain (j : Json) : R Json := do
     | some v => if v.isNull then pure [] else do pure [← tiltOf v]
   let mut data : List (TFld CF Float) := [({ arr := { s0 := 1, s1 := 1, get := fun _ _ => N.one }, o0 := 0, o1 := 0 }, t0)]
   let mut focal : Float := 0.0
+  let mut shape : Option (Int × Int) := none
+  let mut steps : Array Json := #[]
   for ej in ← getArr j "elements" do
     let kind ← getStr ej "kind"
     if kind == "tilt" then
       let e : TiltEl Float := .angular (← getFloat ej "x") (← getFloat ej "y")
       data := tiltMultiplyT (N.ph wl) N.one 0.0 e data
+    else if kind == "propagate" then
+      let dx ← floats2 ej "dx"; let du ← floats2 ej "du"
+      let os ← getInt ej "os"
+      let sh ← ints2 ej "shape"; let psh ← ints2 ej "prop_shape"
+      let mask ← maskBox ej
+      let al := dftAlpha dx.1 dx.2 du.1 du.2 wl focal os
+      let tfs : List (TField CF Float) := data.map fun ft =>
+        let s := fieldShift ft.2 focal wl du.1 du.2 os true
+        let a := fixSplit s.1; let b := fixSplit s.2
+        { fld := ft.1, fix0 := a.1, fix1 := b.1, sub0 := a.2, sub1 := b.2 }
+      let out := (propagateDft tfs al.1 al.2 sh.1 sh.2 psh.1 psh.2 os mask).map freezeF
+      data := out.map fun g => (g, [])
+      shape := some (sh.1 * os, sh.2 * os)
     else
       let pr ← Ops.C07.planeOf N ej
       let st : List (List (TiltEl Float)) ← match optVal ej "seg_tilts" with
@@ -52,21 +88,30 @@ def runTiltChain (j : Json) : R Json := do
         | some v => do (← v.getArr?).toList.mapM fun l => do (← l.getArr?).toList.mapM tiltOf
       data := planeMultiplyT (N.ph wl) pr.p st data
       if pr.pupil then focal := pr.fl
+      shape := match pr.p.shape with | none => shape | some s => some s
+    if (optVal j "steps").isSome then steps := steps.push (viewsJ N shape (data.map Prod.fst))
   let fieldsJ := Json.arr (data.map fun ft =>
     (Ops.C07.fldJ N ft.1).mergeObj (Json.mkObj [("tilts", Json.arr (ft.2.map tiltJ).toArray)])).toArray
+  let ins ← match optVal j "insert", shape with
+    | some ij, _ => do
+        let out ← Ops.C07.arrOf N (← ij.getObjVal? "out")
+        let wt ← N.real (← ij.getObjVal? "weight")
+        pure [("insert", match wfInsert N.nsq (data.map Prod.fst) out wt with | some a => Ops.C07.arrJ N a | none => Json.str "ValueError")]
+    | none, _ => pure []
   match optVal j "prop" with
-  | none => pure (okJ [("fields", fieldsJ)])
+  | none => pure (okJ ([("fields", fieldsJ), ("steps", Json.arr steps), ("focal", floatToJson focal)] ++ ins))
   | some pj => do
     let dx ← floats2 pj "dx"; let du ← floats2 pj "du"
     let os ← getInt pj "os"
-    let shape ← ints2 pj "shape"; let pshape ← ints2 pj "prop_shape"
+    let shp ← ints2 pj "shape"; let pshape ← ints2 pj "prop_shape"
+    let mask ← maskBox pj
     let al := dftAlpha dx.1 dx.2 du.1 du.2 wl focal os
     let tfs : List (TField CF Float) := data.map fun ft =>
       let sh := fieldShift ft.2 focal wl du.1 du.2 os true
       let a := fixSplit sh.1; let b := fixSplit sh.2
       { fld := ft.1, fix0 := a.1, fix1 := b.1, sub0 := a.2, sub1 := b.2 }
-    let out := propagateDft tfs al.1 al.2 shape.1 shape.2 pshape.1 pshape.2 os none
-    let S0 := shape.1 * os; let S1 := shape.2 * os
+    let out := propagateDft tfs al.1 al.2 shp.1 shp.2 pshape.1 pshape.2 os mask
+    let S0 := shp.1 * os; let S1 := shp.2 * os
     pure (okJ [("fields", fieldsJ), ("nout", intJ out.length),
                ("extents", Json.arr (out.map fun g => extToJson g.extent).toArray),
                ("field", Ops.C07.arrJ N (wfField N.one S0 S1 out)),
@@ -86,8 +131,10 @@ def handle (op : String) (j : Json) : Option (R Json) :=
         let shape ← ints2 pj "shape"; let pshape ← ints2 pj "prop_shape"
         let osf := Float.ofInt os
         -- `_dft_alpha(dx, du, wavelength, z, oversample)`
-        let αr := (dx.1 * du.1) / (w.wavelength * w.focal * osf)
-        let αc := (dx.2 * du.2) / (w.wavelength * w.focal * osf)
+        -- the generated `_dft_alpha` call of propagate_dft
+        let al := dftAlpha dx.1 dx.2 du.1 du.2 w.wavelength w.focal os
+        let αr := al.1
+        let αc := al.2
         let shapeOut := (shape.1 * os, shape.2 * os)
         let propOut := (pshape.1 * os, pshape.2 * os)
         let out : List (Fld CF) := propagateDftNoTilt w.data αr αc shapeOut propOut
